@@ -188,6 +188,23 @@ def rule_promote(P) -> RuleResult:
 
 
 
+def _search_flags(P, fi: FuncInfo):
+    """The options (third argument / flags=) of the re.search / re.match / re.fullmatch calls an operator implementation makes, as text."""
+    from ..symex import Engine as _E, T as _T, show as _sh
+    ops = _operand_syms(fi)
+    seen = []
+
+    def on_call(fn, fv, rc, a, k, ex, nd):
+        d = str(fn)
+        if d.split('.')[0] == 're' and d.split('.')[-1] in ('search', 'match', 'fullmatch', 'compile', 'findall', 'finditer'):
+            fl = a[2] if len(a) > 2 and d.split('.')[-1] != 'compile' else a[1] if len(a) > 1 and d.split('.')[-1] == 'compile' else dict(k).get('flags')
+            seen.append((d.split('.')[-1] if d.split('.')[-1] != 'compile' else 'search', _sh(fl) if fl is not None else ''))
+        return NotImplemented
+    for _p in _E(P, on_call=on_call).paths(fi, dict(zip(fi.params, ops))):
+        pass
+    return sorted(set(seen))
+
+
 def _term(P, fi: FuncInfo, kind=None):
     """Result term of an operator implementation, computed on the term interpreter for non-NULL operands (and a non-zero divisor):
     every path must return the same term.  -> old tuple form, or None when the paths disagree / the shape is not understood."""
@@ -400,6 +417,20 @@ def rule_opsem(P) -> RuleResult:
         else:
             res.fail(construct, 'operation',
                      f'{o.label} must compute {_show(exp[0])} but its implementation computes {_show(term)}', where)
+    # `x !~ y` is the negation of `x ~ y`: both search with the same options (the terms above leave the flags open)
+    flags = {}
+    for o in reg.ops:
+        if o.kind in ('Match', 'NotMatch') and isinstance(o.impl, FuncInfo):
+            flags.setdefault(tuple(getattr(t, '__name__', str(t)) for t in o.intypes), {})[o.kind] = (_search_flags(P, o.impl), o)
+    for types_, d in sorted(flags.items()):
+        if 'Match' in d and 'NotMatch' in d:
+            (f1, o1), (f2, o2) = d['Match'], d['NotMatch']
+            if f1 != f2:
+                res.fail(f'operator:{o2.label}', 'operation:flags', f'`~` searches with the options {f1 or "(none)"} and `!~` with {f2 or "(none)"}: '
+                         f'`x !~ y` is no longer NOT (x ~ y) - a pattern that matches only under one of them makes both TRUE or both FALSE',
+                         loc(o2.impl))
+            else:
+                res.ok({'siblings': [o1.label, o2.label], 'search_options': f1 or '(none)', 'agree': True})
     # BETWEEN: lower <= operand <= upper, both bounds inclusive
     ci = P.cls(QC, 'EvalBetween')
     call = ci.methods.get('__call__')
